@@ -21,13 +21,11 @@ def runHandlerOld : Handler → K → K
   | .rewrite id p, k => fun r t => k { r with path := p } (t ++ [ev id r])
   | .fail id st, _ => fun r t => .err (t ++ [ev id r]) st r
   | .raise src, _ => fun r t => .err t (raiseStatus src r) r
-  | .answer src, _ => fun r t =>
-    match src with
-    | .empty => .done t (some (answerDefault r))
-    | _ =>
-      match src.resolve r with
-      | some n => .done t (some n)
-      | none => .err t 500 r          -- `return Error(http.StatusInternalServerError, err)`
+  | .answer src, k => fun r t =>
+    match answerStep src r with
+    | .write n => .done t (some n)
+    | .hint => k r (t ++ [hintEv])
+    | .fail => .err t 500 r         -- `return Error(http.StatusInternalServerError, err)`
   | .invoke _, _ => fun r t => .err t 0 r   -- `fmt.Errorf("invoke: route '%s' not found", …)`
   | .sub rs hasErrs errs, k => fun r t =>
     -- Subroute.ServeHTTP BEFORE the repair: `sr.Routes.Compile(next)`, and ANY error coming back —
